@@ -319,6 +319,7 @@ func run(r *ev.Run) int {
 		"several authorization values in one call are not probed (which one counts is not stated)",
 		"for acceptance only the canonical right credential is binding; variants the reference predicate accepts (intermediate chain, extra SANs, wildcard, upper-case SAN) and names carried outside the matching SAN type (CN-only hostname, IP text in a dNSName) are recorded, not judged",
 		"option sets without a trusted CA are outside the statement: their outcomes are recorded, not judged",
+		"the client's certificate is the leaf it proves possession of; certificates it merely sends along (not part of the leaf's chain) never lend their names to it",
 		"acceptance over TLS is decided by a round trip (server-side handshake result + ping/pong in-process, Cluster/Status RPC against the binary), never by the client-side handshake alone",
 		"the follower's Reset effect is observed through table revisions while replication is quiescent (oracle-admitted Reset probes are ordered last)",
 	)
@@ -406,6 +407,7 @@ func run(r *ev.Run) int {
 		r.FloorCount("near_miss_token_probes", int64(r.Pick(350, 9000)))
 		r.FloorCount("near_miss_certificates", int64(r.Pick(330, 4500)))
 		r.FloorCount("tls_observed_accepted", int64(r.Pick(150, 1000)))
+		r.FloorCount("multi_certificate_client_messages", int64(r.Pick(120, 1200)))
 		r.FloorDistinct("option_sets_inproc", 16)
 		r.FloorDistinct("option_sets_binary", int64(r.Pick(3, 12)))
 		r.FloorNontrivial(int64(r.Pick(750, 14000)))
